@@ -4,7 +4,7 @@
    Model: Model/BstParser.v (pybtex/bibtex/bst.py, pybtex/scanner.py); printer and the classes of
    programs / layouts the statements speak about: Spec/BstPrint.v. *)
 From Pybtex Require Import Base.Prelude Base.PyChar Base.PyStr Model.BstParser Spec.BstPrint
-  Proofs.BstComment Proofs.BstLex Proofs.BstRoundtrip Proofs.BstErrors Proofs.BstArity Proofs.BstSource Proofs.BstTotal Proofs.BstLast Proofs.BstSound Proofs.BstStream Proofs.BstFile.
+  Proofs.BstComment Proofs.BstLex Proofs.BstRoundtrip Proofs.BstErrors Proofs.BstArity Proofs.BstSource Proofs.BstTotal Proofs.BstLast Proofs.BstSound Proofs.BstStream Proofs.BstFile Proofs.BstShort Proofs.BstAccepted.
 
 (* %-comments: strip_comment keeps exactly the part of the line before the first percent sign that
    has an even number of double quotes before it (a percent sign inside a string literal is not a
@@ -153,6 +153,19 @@ Example error_line_examples :
   ") = PyErr cls_premature 3.
 Proof. vm_compute. auto. Qed.
 
+(* FINDING F29 (known).  The property text: malformed source is rejected "with a syntax error that
+   names the line".  Full statement (false of the code): the line the scanner reports for a token is
+   1 + the number of line feeds before it.  Refuted: in   "a<LF>b" c   the name c is reported on
+   line 1 (Scanner.get_token does not count line feeds inside a STRING token), so after a string
+   literal that runs over a line end every later syntax error names a line too early
+   (multiline_string_quirk below).  error_names_line / error_names_line_src are the true variants:
+   they hold for every source whose string literals stay on one line -- which includes the
+   property's generated family and its single-token corruptions. *)
+Theorem lineno_counts_refuted : exists text pre v,
+  text = pre ++ v /\ lf pre = 1%Z /\ In (0%nat, v, 1%Z) (fst (scan_tokens (S (length text)) text 1%Z)).
+Proof. exact Proofs.BstErrors.lineno_counts_refuted. Qed.
+Print Assumptions lineno_counts_refuted.
+
 (* the hypothesis of error_names_line is needed: a string literal that runs over a line end makes
    later errors name a line too early *)
 Example multiline_string_quirk :
@@ -161,32 +174,37 @@ b"" c}
 #") = PyErr cls_token_required 2.
 Proof. vm_compute. reflexivity. Qed.
 
-(* FINDING F21.  The property text: "malformed source is rejected".  A command followed by fewer
-   groups than its arity is malformed, yet it is accepted when another command follows
-   (bst.py:145-149 stops reading groups silently).  Full statement (false of the code):
-     forall src p, parse_string src = Ok p -> Forall arity_exact p *)
-Theorem arity_respected_refuted : exists src p, parse_string src = Ok p /\ ~ Forall arity_exact p.
-Proof. exact Proofs.BstArity.arity_respected_refuted. Qed.
-Print Assumptions arity_respected_refuted.
+(* F21 (repaired in /repo by fix 135237f; the model follows the repaired code): every accepted
+   command bears one of the ten names and has exactly as many groups as its arity *)
+Theorem arity_respected : forall src p, parse_string src = Ok p -> Forall arity_exact p.
+Proof. exact Proofs.BstArity.arity_respected. Qed.
+Print Assumptions arity_respected.
 
-(* the strongest true variant: every accepted command bears one of the ten names and has AT MOST
-   as many groups as its arity *)
-Theorem arity_respected_partial : forall src p, parse_string src = Ok p -> Forall arity_at_most p.
-Proof. exact Proofs.BstArity.arity_respected_partial. Qed.
-Print Assumptions arity_respected_partial.
+(* malformed source, short argument list: a command (name with arity n) followed by fewer than n
+   well-formed groups and then by anything that is not an opening brace is rejected, with
+   TokenRequired naming the line of the token that stands where the next group should open, or with
+   PrematureEOF naming the last line if the text ends there.  (no_cr: as in every text parse_string
+   builds; ssl: no string literal runs over a line end, see F27 below.) *)
+Theorem malformed_rejected_short_arguments : forall name groups rest gs n,
+  wf_nameb name = true -> arity name = Some n -> (length groups < n)%nat ->
+  forallb (forallb wf_tokb) groups = true -> short_rest_ok rest ->
+  layout_okb None gs (LName name :: flat_map flat_group groups ++ rest) = true ->
+  no_cr (weave gs (LName name :: flat_map flat_group groups ++ rest)) = true ->
+  ssl false (weave gs (LName name :: flat_map flat_group groups ++ rest)) = true ->
+  exists pre post,
+    weave gs (LName name :: flat_map flat_group groups ++ rest) = pre ++ post /\
+    parse_text (weave gs (LName name :: flat_map flat_group groups ++ rest)) = PyErr (short_cls rest) (1 + lf pre)%Z /\
+    match rest with [] => post = [] | t :: _ => exists post', post = ltok_text t ++ post' end.
+Proof. exact Proofs.BstShort.short_arguments_rejected. Qed.
+Print Assumptions malformed_rejected_short_arguments.
 
-(* ... and a short command is never the last one: the last command of an accepted program always
-   has exactly its arity (at the end of the text the code does raise PrematureEOF).  So F21 is
-   confined to "fewer groups than the arity, directly followed by another command". *)
-Theorem last_command_complete : forall src p pre c,
-  parse_string src = Ok p -> p = pre ++ [c] -> arity_exact c.
-Proof. exact Proofs.BstLast.last_command_complete. Qed.
-Print Assumptions last_command_complete.
-
-Example last_command_examples :
+Example short_arguments_examples :
+  parse_string (s2l "FUNCTION {a}
+READ") = PyErr cls_token_required 2 /\
   parse_string (s2l "READ ENTRY {a}{b}") = PyErr cls_premature 1 /\
-  parse_string (s2l "ENTRY {a}{b} READ") = Ok [(s2l "ENTRY", [[TId (s2l "a")]; [TId (s2l "b")]]); (s2l "READ", [])].
-Proof. vm_compute. auto. Qed.
+  parse_string (s2l "ENTRY {a}{b} READ") = PyErr cls_token_required 1 /\
+  short_rest_ok [LName (s2l "READ")] /\ arity (s2l "FUNCTION") = Some 2%nat.
+Proof. vm_compute. repeat split; try reflexivity; discriminate. Qed.
 
 (* the fuel the model gives itself always suffices: for every source the result is Ok, a pybtex
    syntax error, or Crash -- never OutOfFuel (so the statements above about Ok / PyErr results
@@ -195,17 +213,18 @@ Theorem parse_string_fuel : forall src, parse_string src <> OutOfFuel.
 Proof. exact Proofs.BstTotal.parse_string_fuel. Qed.
 Print Assumptions parse_string_fuel.
 
-(* "malformed source is rejected", in general: whatever list(parse_string(src)) accepts IS a layout
-   of the program it returns -- the comment-stripped text consists of exactly the lexical tokens of
+(* "malformed source is rejected", in general: whatever list(parse_string(src)) accepts is a
+   WELL-FORMED program (wf_programb: the class bst_roundtrip is about -- ten command names, exactly
+   arity-many groups, ...) and the source IS a layout of it -- the comment-stripped text consists of exactly the lexical tokens of
    that program, in order (so braces are balanced and every token is a name, a string, an integer
    or a brace), each spelt in an allowed way (Proofs/BstSound.spells: names and strings verbatim,
    integers as #-?digits with that value), separated by whitespace only, followed by whitespace.
    Hence any source that is not of this form (unbalanced braces, stray or broken tokens, unknown
-   commands) is not accepted; with arity_respected_partial / last_command_complete the only
-   malformed sources accepted are those of finding F21. *)
+   commands) is not accepted; with arity_respected every command of it is complete. *)
 Theorem accepted_is_printed : forall src p, parse_string src = Ok p ->
+  wf_programb p = true /\
   exists g, layout_of (flat_program p) (text_of_string src) g /\ forallb is_space g = true.
-Proof. exact Proofs.BstSound.accepted_is_printed. Qed.
+Proof. exact Proofs.BstAccepted.accepted_is_wf_and_printed. Qed.
 Print Assumptions accepted_is_printed.
 
 Example accepted_example :
